@@ -7,7 +7,6 @@
 package py
 
 import (
-	"fmt"
 	"math"
 	"math/big"
 	"strconv"
@@ -48,10 +47,25 @@ func FloatNew(metatype *Type, args Tuple, kwargs StringDict) (Object, error) {
 }
 
 func (a Float) M__str__() (Object, error) {
-	if i := int64(a); Float(i) == a {
-		return String(fmt.Sprintf("%d.0", i)), nil
+	f := float64(a)
+	switch {
+	case math.IsNaN(f):
+		return String("nan"), nil
+	case math.IsInf(f, 1):
+		return String("inf"), nil
+	case math.IsInf(f, -1):
+		return String("-inf"), nil
 	}
-	return String(fmt.Sprintf("%g", a)), nil
+	// Shortest representation which round trips, written in
+	// exponent form for exponents < -4 or >= 16 like python does
+	s := strconv.FormatFloat(f, 'e', -1, 64)
+	if exp, err := strconv.Atoi(s[strings.IndexByte(s, 'e')+1:]); err == nil && exp >= -4 && exp < 16 {
+		s = strconv.FormatFloat(f, 'f', -1, 64)
+		if !strings.ContainsRune(s, '.') {
+			s += ".0"
+		}
+	}
+	return String(s), nil
 }
 
 func (a Float) M__repr__() (Object, error) {
